@@ -215,6 +215,16 @@ const STRINGS: [&str; 14] = ["", "a", "ab", "a\nbc", "ab\r\nc", "\n", "a\n", "\r
 fn cases(tier: Tier) -> Vec<TextCase> {
     let fonts: Vec<usize> = if tier.is_thorough() { (0..FONTS.len()).collect() } else { fonts_of("ascii") };
     let mut v = vec![];
+    // one line of 300 characters (wider than any 8-bit counter) and a text of 300 lines, for two fonts
+    let long_line: String = (0..300).map(|i| (b'a' + (i % 26) as u8) as char).collect();
+    let many_lines: String = (0..300).map(|i| if i % 2 == 0 { "x\n" } else { "yz\r\n" }).collect();
+    for font in ["ascii::FONT_4X6", "ascii::FONT_6X9"] {
+        for (text, al) in [(&long_line, 0u8), (&long_line, 1), (&long_line, 2), (&many_lines, 0), (&many_lines, 2)] {
+            for (tc, bg, ul) in [(true, true, 0u8), (true, false, 1)] {
+                v.push(TextCase { font: font.to_string(), text: text.clone(), text_color: tc, bg, underline: ul, strike: 0, baseline: 3, align: al, lh: (1, 100), pos: (-30, 11) });
+            }
+        }
+    }
     for f in fonts {
         for s in STRINGS {
             for al in 0..3u8 {
@@ -238,7 +248,7 @@ fn run_part(run: &mut Run) {
     let tier = run.tier;
     run.sweep_vec(
         "layout",
-        "built-in fonts (quick: the 22 ascii fonts = every size/weight; thorough: all 292) x 14 strings (empty, single/multi-line, empty lines, trailing newline, CR LF, long lines, unmapped characters) x 3 alignments x 4 baselines x 4 line heights x 4 decoration sets x background on/off x 2 positions",
+        "built-in fonts (quick: the 22 ascii fonts = every size/weight; thorough: all 292) x 14 strings (empty, single/multi-line, empty lines, trailing newline, CR LF, long lines, unmapped characters) x 3 alignments x 4 baselines x 4 line heights x 4 decoration sets x background on/off x 2 positions, plus a 300-character line and a 300-line text in two fonts",
         || cases(tier),
         check,
     );
